@@ -813,6 +813,9 @@ inductive TOp
   | whr (t : Nat) (pred : Option RowPred) (comparison : Option Op) (kws : List (Nat × Arg))
   | groupby (t : Nat) (level : Nat) (select : Select)
   | copy (t : Nat)
+  /-- `list(table)` of an existing table object (used right after another object sharing its
+  storage was mutated) -/
+  | peek (t : Nat)
   /-- an operation the harness does not perform (aliased or view target); creates a dead table
   if the operation would have created one -/
   | skip (creates : Bool)
@@ -832,22 +835,33 @@ def observe (t : Table) : Obs :=
 
 def setAt {α} (l : List α) (i : Nat) (a : α) : List α := l.set i a
 
+/-- every table object of a run was made from the first one by `where` (a `View` of the same dict
+of column lists) or `copy` (the very same dict): a mutation through one object is a mutation of the
+lists all of them show.  `share d ts` gives every object the mutated dict `d`; each keeps its own
+`_columns`, `_indexes` and selection. -/
+def share (d : List (Nat × List Cell)) (ts : List (Option Table)) : List (Option Table) :=
+  ts.map (fun o => o.map (fun u => { u with data := d }))
+
 /-- one step: the tables alive so far (`none`: dead after a failed mutation / not created) -/
 def step (cfg : Cfg) (ts : List (Option Table)) (op : TOp) : List (Option Table) × Obs :=
   let target (i : Nat) : Option Table := (ts[i]?).bind id
   match op with
   | .skip creates => (if creates then ts ++ [Option.none] else ts, .skipped)
+  | .peek i =>
+    match target i with
+    | Option.none => (ts, .skipped)
+    | some t => (ts, observe t)
   | .insert i d =>
     match target i with
     | Option.none => (ts, .skipped)
     | some t => match t.insert cfg d with
-      | .ok t' => (setAt ts i (some t'), observe t')
+      | .ok t' => (setAt (share t'.data ts) i (some t'), observe t')
       | .error e => (setAt ts i Option.none, .err e)
   | .index i cols =>
     match target i with
     | Option.none => (ts, .skipped)
     | some t => match t.index cfg cols with
-      | .ok t' => (setAt ts i (some t'), observe t')
+      | .ok t' => (setAt (share t'.data ts) i (some t'), observe t')
       | .error e => (setAt ts i Option.none, .err e)
   | .whr i pred cmp kws =>
     match target i with
